@@ -5,6 +5,18 @@ import json, os
 V = os.path.dirname(os.path.dirname(os.path.abspath(__file__)))
 props = [json.loads(l) for l in open(os.path.join(V, 'properties.jsonl'))]
 CLAIMED = {
+ "C01": ("locks+eqdom", "lockset dataflow + equality-domain dataflow (trace partitioning) + units-of-measure inference over clang CFGs",
+         "Every channel function balanced on the lock; every access of a cursor field in any unit under the channel lock; at every empty, error-free return of channel_read_map the reader's cursor provably equals the writer's (equality abstract domain over all path states); readers registered under the lock at the writer's lap; cursor dimensions (lap vs position) never mixed and cursor comparison decides on the lap first. Necessary conditions for all schedules; exact byte sequence across wraps (ring arithmetic) not decided.",
+         "constructor/destructor single-threaded; video_sink_bytes_waiting advisory", "3.2, 3.3, 4/C01"),
+ "C02": ("locks+paths", "path-sensitive grant dataflow on channel_write_map + encapsulation + lockset + units-of-measure",
+         "A region is recorded/handed out only with a grant (no readers, or next_write fits) obtained under the current hold of the lock (cleared by wait/unlock); no function outside channel.c writes channel/reader cursors; cursor accesses locked; slowest reader ordered by (lap, position). Non-overlap arithmetic of the four placement cases not decided.",
+         "readers advance only through the channel API; flags equal within one lock hold", "3.1, 3.2, 4/C02"),
+ "C10": ("own+paths", "initialise-before-read-modify ownership dataflow + must-pass / pairing rules + table exhaustiveness",
+         "Accumulator payload from the reused ring is initialised before the first read-modify on every path; accumulate covers every integer sample type; window-complete edge normalises by 1/count before committing and resets pointer and counter; counter follows accumulate; emitted id is the window's first; reader always unmapped. Float exactness and the end-of-stream race not decided.",
+         "channel_write_map memory is indeterminate", "3.1, 3.4, 4/C10"),
+ "C17": ("own+locks", "provenance / extent-function dataflow for heap buffers + dominance guards + guarded-by lockset + congruence domain",
+         "Every writer into frame_data/render_data is bounded by a shape and extent function not larger than the ones that sized the buffer; set re-sizes on every successful path; rounding helper is round-up to 32; caller-buffer copy dominated by its size test; binning guard dominates the store; buffers only used under im.lock (one recorded known finding); advertised pixel types = rendered ones; clamped shape read back. In-bounds indexing inside bin2/pattern fill not decided.",
+         "binning >= 1 (checked) orders full >= reported", "3.2, 3.4, 4/C17"),
  "C03": ("locks", "lockset dataflow + condition-variable discipline over clang CFGs",
          "Every path of every production function: lost-wake-up freedom for the writer's wait (each store to a field its predicate reads is ordered with the check by the channel lock or followed by a lock hand-off before the notify), notify on every path of the release operations, re-check loop. Structural necessary conditions of C03 for all schedules; ring arithmetic (bounded draining) not decided.",
          "trusts pthread_cond_wait's atomic release; lock/field identity by (record, field path); constructors/destructors single-threaded", "3.2, 4/C03"),
